@@ -94,6 +94,8 @@ def handle (op : String) (c i : Json) : Except String (Json × String) := do
       let find (n : String) : Option Json := gsigs.find? fun g => (g.getObjVal? "name").toOption == some (Json.str n)
       let framed ← J.str (← J.key orig "name")
       let muxed := osigs.any fun o => (o.getObjVal? "mux").toOption == some (Json.str "Multiplexor")
+      -- SYM writes the multiplexer with its groups (`Mux=` lines): a multiplexer without any group has no place for its role
+      let hasGroups := osigs.any fun o => match (o.getObjVal? "mux").toOption with | some (Json.num _) => true | _ => false
       let bad ← osigs.filterMapM fun o => do
         let n ← J.str (← J.key o "name")
         let isMux := (o.getObjVal? "mux").toOption == some (Json.str "Multiplexor")
@@ -113,7 +115,7 @@ def handle (op : String) (c i : Json) : Except String (Json × String) := do
           let orx ← sortedStrs (← J.key o "receivers")
           let grx ← sortedStrs (← J.key g "receivers")
           let staticInMux := muxed && (o.getObjVal? "mux").toOption == some Json.null
-          let muxOk ← if !carries fname "mux" || (fname == "sym" && staticInMux) then pure true else eq "mux"
+          let muxOk ← if !carries fname "mux" || (fname == "sym" && (staticInMux || !hasGroups)) then pure true else eq "mux"
           let valuesOk ← if !carries fname "values" || (fname == "sym" && isMux) then pure true else eq "values"
           let facOk ← eq "factor"
           let offOk ← eq "offset"
